@@ -236,6 +236,7 @@ impl Prop for C15 {
     type Case = SchedCase;
     const ID: &'static str = "C15";
     const LEVEL: &'static str = "exploration";
+    const UNREPRODUCIBLE_IS_VIOLATION: bool = true;
     fn count(tier: Tier) -> u64 {
         match tier {
             Tier::Quick => 200_000,
